@@ -1,7 +1,7 @@
 #!/bin/bash
 # usage: selftest_mut.sh <contracts module> <file relative to repo> <python-regex-old> <new>   -> runs pyvc.debug on a scratch copy
 set -e
-D=$(mktemp -d /tmp/mutXXXX); cp -r /repo/xtuml /repo/bridgepoint $D/
+D=$(mktemp -d /tmp/mutXXXX); cp -r ${SRC:-/repo}/xtuml ${SRC:-/repo}/bridgepoint $D/
 python3 - "$D/$2" "$3" "$4" <<'PY'
 import sys,re
 p,old,new=sys.argv[1:4]; s=open(p).read(); s2=s.replace(old,new,1)
